@@ -28,7 +28,7 @@ from mitmproxy.proxy import layers
 from mitmproxy.proxy.layers.http import HTTPMode
 from mitmproxy.proxy.layers.http._http2 import Http2Client
 
-from vf import peers, peers_h2 as P, sansio
+from vf import peers, peers_h2 as P, peers_h3 as Q, sansio
 from vf.ref import http1 as ref
 
 PROPERTY = "C05"
@@ -36,7 +36,7 @@ LEVEL = "exploration"
 ENGINE = "sansio"
 BUDGET = {"quick": (330, 18), "thorough": (40000, 240)}
 WORKERS = {"quick": 4, "thorough": 16}
-REQUIRED = ["client.stream", "server.stream", "server.order", "flow.request", "flow.response", "peer.protocol", "m3.concurrency"]
+REQUIRED = ["client.stream", "server.stream", "server.order", "flow.request", "flow.response", "peer.protocol", "m3.concurrency", "h3.client.stream", "h3.h1.connections"]
 TECHNIQUE = "runtime monitoring: sans-io schedule exploration with tagged streams, echoing hyper-h2 peers and a live concurrency monitor"
 RULE = (
     "case = (topology h2->h2 | h2->h1 | h1->h2, proxy mode, 2-12 tagged streams with random frame interleaving and re-cut byte stream, "
@@ -60,7 +60,7 @@ LEVEL_TEXT = (
 LEVEL_NOTE = "Trusted: hyper-h2/hpack/hyperframe as peers, vf/ref/http1.py, the sans-io driver's model of ConnectionHandler (vf/sansio.py)."
 
 SC = h2.settings.SettingCodes
-TOPOS = ["h2h2"] * 6 + ["h2h1"] * 2 + ["h1h2"] * 2
+TOPOS = ["h2h2"] * 6 + ["h2h1"] * 2 + ["h1h2"] * 2 + ["h3h1"] * 2 + ["h3h2"]
 MODES = ["regular", "reverse:http://example.com:80", "transparent"]
 HOSTS = [b"example.com", b"other.example:8080"]
 TAGRE = re.compile(rb"s\d+x[0-9a-f]{5}")
@@ -105,7 +105,7 @@ def gen_streams(rng, topo, mode, tier):
             end_mode = "headers"
         else:
             end_mode = rng.choice(["data", "data", "empty", "trailers"])
-        if topo != "h2h2" and end_mode == "trailers":
+        if topo not in ("h2h2", "h3h2") and end_mode == "trailers":
             end_mode = "data"
         s = {
             "key": k,
@@ -125,7 +125,7 @@ def gen_streams(rng, topo, mode, tier):
 
 def stream_actions(s, topo):
     hdrs = [(b":method", s["method"]), (b":scheme", b"http"), (b":authority", s["host"]), (b":path", b"/" + s["tag"]), (b"x-tag", s["tag"])]
-    if topo == "h2h1" and s["chunks"]:
+    if topo in ("h2h1", "h3h1") and s["chunks"]:
         hdrs.append((b"content-length", b"%d" % sum(len(c) for c in s["chunks"])))
     acts = [("headers", s["key"], hdrs, s["end_mode"] == "headers")]
     for i, c in enumerate(s["chunks"]):
@@ -165,11 +165,11 @@ def origin_plan(salt, tag, topo, early):
     r = random.Random(f"{salt}/{tag!r}")
     plan = {"rst": None, "echo": not early, "own": [], "trailers": None, "cl": False, "h1": "cl"}
     plan["own"] = [b"r" + tag + b":%d;" % i + (tag + b",") * r.choice([0, 0, 2, 30, 300]) for i in range(r.choice([0, 1, 1, 2, 3]))]
-    if topo == "h2h2" and r.random() < 0.4:
+    if topo in ("h2h2", "h3h2") and r.random() < 0.4:
         plan["trailers"] = [(b"rt", tag)]
     if topo == "h1h2":
         plan["cl"] = r.random() < 0.85
-    if topo == "h2h1":
+    if topo in ("h2h1", "h3h1"):
         plan["h1"] = r.choice(["cl", "cl", "chunked", "close"])
     if r.random() < 0.13:
         plan["rst"] = (r.randint(0, 3), r.choice([8, 2, 7, 1]))  # after k answer actions, error code
@@ -257,6 +257,8 @@ def run_case(ctx, opts):
     r = ctx.rng
     topo = r.choice(TOPOS)
     mode = r.choice(MODES)
+    if topo[:2] == "h3" and mode.startswith("reverse"):
+        mode = "transparent"  # the HTTP/3 leg drives HttpLayer directly (regular / transparent), see vf/peers_h3.py
     salt = r.getrandbits(32)
     streams = gen_streams(r, topo, mode, ctx.tier)
     # "abort while a hook is pending" scenario (about 6 % of all cases): stream A's request body is streamed upstream, the origin
@@ -275,7 +277,7 @@ def run_case(ctx, opts):
         a.update(stream_req=True, method=b"POST", chunks=[a["tag"] + b":%d;" % i for i in range(3)], end_mode="data", trailers=None)
     by_tag = {s["tag"]: s for s in streams}
     all_tags = set(by_tag)
-    early = scen is not None or (topo == "h2h2" and r.random() < 0.1)
+    early = scen is not None or (topo in ("h2h2", "h3h2") and r.random() < 0.1)
     plans = {t: origin_plan(salt, t, topo, early) for t in all_tags}
     if scen is not None:
         for pl in plans.values():
@@ -352,7 +354,7 @@ def run_case(ctx, opts):
         return raw, plan["h1"] == "close"
 
     def server_factory(drv, conn):
-        if topo == "h2h1":
+        if topo in ("h2h1", "h3h1"):
             p = peers.H1ServerPeer(h1_responder, r, r.choice(["whole", "random", "random"]))
             origin_h1.append((conn, p))
             return p
@@ -430,15 +432,39 @@ def run_case(ctx, opts):
             st["hi"] = hi
             st["limit"] = limit_now
 
-    d = sansio.Driver(
-        top_factory(mode), client=client, options=opts, rng=r, addons=[force], policy=policy, server_factory=server_factory,
-        schedule=r.choice(["random", "random", "random", "fifo"]), snapshot=sansio.http_snapshot, m3=[m3], max_steps=6000,
-        complete_bias=r.choice([0.2, 0.5, 0.8]), open_plan=OPEN_PLAN(r) if OPEN_PLAN is not None else None,
-    )
+    if topo[:2] == "h3":
+        client = sansio.make_client(mode, transport="udp")
+        client.alpn = b"h3"
+        hmode = HTTPMode.regular if mode == "regular" else HTTPMode.transparent
+        d = Q.H3Driver(
+            lambda c: layers.HttpLayer(c, hmode), client=client, options=opts, rng=r, addons=[], policy=policy, server_factory=server_factory,
+            schedule=r.choice(["random", "random", "random", "fifo"]), snapshot=sansio.http_snapshot, m3=[m3], max_steps=6000,
+            complete_bias=r.choice([0.2, 0.5, 0.8]),
+        )
+        force.http = d.top
+    else:
+        d = sansio.Driver(
+            top_factory(mode), client=client, options=opts, rng=r, addons=[force], policy=policy, server_factory=server_factory,
+            schedule=r.choice(["random", "random", "random", "fifo"]), snapshot=sansio.http_snapshot, m3=[m3], max_steps=6000,
+            complete_bias=r.choice([0.2, 0.5, 0.8]), open_plan=OPEN_PLAN(r) if OPEN_PLAN is not None else None,
+        )
     if mode == "transparent":
         d.context.server.address = ("example.com", 80)
 
-    if topo == "h1h2":
+    if topo[:2] == "h3":
+        # HTTP/3 client: QUIC stream events of several concurrent requests interleaved (HEADERS / DATA / FIN / RESET_STREAM);
+        # stream ids 0, 4, 8, ... are assigned in the order in which the requests first appear
+        script, style = interleave(r, per_stream)
+        order = []
+        for a_ in script:
+            if a_[0] == "headers" and a_[1] not in order:
+                order.append(a_[1])
+        h3_id = {k: i for i, k in enumerate(order)}
+        script = [(("headers", h3_id[a_[1]], a_[2], True) if a_[0] == "trailers" else (a_[0], h3_id[a_[1]]) + tuple(a_[2:])) for a_ in script]
+        cpeer = Q.RawH3Client(script, r)
+        cpeer.by_key_fn = lambda: {k: cpeer.streams.get(4 * i) for k, i in h3_id.items()}
+        style = "h3-" + style
+    elif topo == "h1h2":
         raws = []
         for s in streams:
             target = (b"http://" + s["host"] if mode == "regular" else b"") + b"/" + s["tag"]
@@ -479,7 +505,7 @@ def run_case(ctx, opts):
     d.teardown()
     if DEBUG is not None:
         DEBUG(locals())
-    if d.budget_exceeded or (topo != "h1h2" and cpeer.script_errors):
+    if d.budget_exceeded or (topo[:2] == "h2" and cpeer.script_errors):
         ctx.count("inconclusive_cases")
         return None
 
@@ -513,11 +539,22 @@ def run_case(ctx, opts):
                  {"only_body_length_errors": all(e.startswith("InvalidBodyLengthError") for e in p.protocol_errors)})
         if p.goaway is not None and p.goaway[0] != 0:
             viol("proxy-sent-goaway-to-origin", {"goaway": p.goaway})
-    if topo != "h1h2":
+    if topo[:2] == "h2":
         if cpeer.protocol_errors:
             viol("client-h2-rejects-proxy-bytes", {"errors": cpeer.protocol_errors})
         if cpeer.goaway is not None and cpeer.goaway[0] != 0:
             viol("proxy-sent-goaway-to-client", {"goaway": cpeer.goaway})
+    if topo[:2] == "h3":
+        ctx.count("peer.protocol")
+        if cpeer.conn_close is not None or cpeer.decode_errors:
+            viol("proxy-closed-h3-connection-or-sent-undecodable-frames", {"conn_close": cpeer.conn_close, "decode_errors": cpeer.decode_errors})
+        # one HTTP/1 upstream connection per concurrent HTTP/3 request (HTTP/1 cannot multiplex)
+        if topo == "h3h1":
+            ctx.count("h3.h1.connections")
+            used = [bytes(p.received) for _, p in origin_h1 if p.received]
+            heads = sum(len(re.findall(rb"(?m)^(?:GET|POST|PUT|DELETE) /s\d+x[0-9a-f]{5} HTTP/1\.1\r$", u)) for u in used)
+            if heads != len(used):
+                viol("h3-requests-share-an-http1-upstream-connection", {"connections_used": len(used), "request_heads_written": heads, "upstream": [u[:200] for u in used][:4]})
     for v in m3viol[:1]:
         viol("concurrency-limit-exceeded", v)
 
@@ -687,10 +724,13 @@ def run_case(ctx, opts):
     answered_ok = 0
     resp_order = []
     if topo != "h1h2":
+        by_key = cpeer.by_key_fn() if topo[:2] == "h3" else cpeer.by_key
         for s in streams:
             tag = s["tag"]
-            rec = cpeer.by_key.get(s["key"])
+            rec = by_key.get(s["key"])
             ctx.count("client.stream")
+            if topo[:2] == "h3":
+                ctx.count("h3.client.stream")
             plan = plans[tag]
             got_blob = b""
             if rec is not None:
@@ -714,7 +754,7 @@ def run_case(ctx, opts):
                 viol("undisturbed-stream-reset-or-error-page", {"tag": tag, "record": _short(rec), "upstream": seen_up.get(tag)})
                 continue
             eh, ec, et = response_parts(plan, tag, full_body[tag], s["trailers"])
-            if topo == "h2h1":
+            if topo in ("h2h1", "h3h1"):
                 et = None
             problems = []
             if hd.get(b":status") != b"200" or hd.get(b"x-tag") != tag:
@@ -727,7 +767,7 @@ def run_case(ctx, opts):
                 viol("client-stream-response-differs", {"tag": tag, "problems": problems}, {"foreign": any(p_[0] != "body" for p_ in problems)})
             else:
                 answered_ok += 1
-        ordered = sorted((rec["order"], k) for k, rec in cpeer.by_key.items() if rec is not None and rec["order"] is not None)
+        ordered = sorted((rec["order"], k) for k, rec in by_key.items() if rec is not None and rec["order"] is not None)
         resp_order = [k for _, k in ordered]
     else:
         down = bytes(d.out[client])
